@@ -20,7 +20,7 @@ RULE = (
 	'and model); nodes with arbitrary key / chain code; a malformed stream (indices in [2^31, 2^32), >= 2^32, negative); mnemonics and '
 	'passphrases as opaque strings (vector mnemonics, random ASCII, NFKD-sensitive Unicode for the direct check); facade paths over network '
 	'names x boundary account ids; node -> key pair on random keys and on every account of tests/vectors/*/crypto/6.test-hd-derivation.json; '
-	'BufferWriter.write_int over both byte orders incl. overflow; long paths (200, 600, 1100, 1500 elements; 2500 and 5000 in the thorough tier) on both shipped curves given as list / tuple / generator / range, compared with the fold of derive_one, with random splits and with chunks of 50, on the implementation and on the model; histories of calls on shared objects for both facades (one node converted twice, converted then derived further vs the full path, two paths from one node in both orders, several accounts converted and the first converted again, roots of two curves interleaved, random mixes), where every argument object (node, path list, seed buffer) is compared with its snapshot after every call. A case is distinct by its (operation, arguments); non-trivial = it reached '
+	'BufferWriter.write_int over both byte orders incl. overflow; seeds whose bytes spell text (all ASCII hex digits of even / odd length in lower, upper, mixed case, digits, one non-hex byte, printable ASCII; as bytes, bytearray, memoryview; the pair 00ff as text / as two bytes; str seeds are refused) through from_seed, a short path and both facades; long paths (200, 600, 1100, 1500 elements; 2500 and 5000 in the thorough tier) on both shipped curves given as list / tuple / generator / range, compared with the fold of derive_one, with random splits and with chunks of 50, on the implementation and on the model; histories of calls on shared objects for both facades (one node converted twice, converted then derived further vs the full path, two paths from one node in both orders, several accounts converted and the first converted again, roots of two curves interleaved, random mixes), where every argument object (node, path list, seed buffer) is compared with its snapshot after every call. A case is distinct by its (operation, arguments); non-trivial = it reached '
 	'the implementation and (when the driver runs) the model.')
 TRUSTED_BASE = [
 	'Lean 4.33 kernel; axioms of the property theorems: subset of {propext, Classical.choice, Quot.sound}',
@@ -418,8 +418,19 @@ def evaluate(modules, case):
 		path = case['path']
 		if 'derive' == operation:
 			curve, seed = case['curve'], bytes.fromhex(case['seed'])
-			start = lambda: modules['Bip32'](curve).from_seed(seed)  # noqa: E731 pylint: disable=unnecessary-lambda-assignment
+			seed_as = case.get('seed_as', 'bytes')
+			given_seed = {'bytes': lambda: seed, 'bytearray': lambda: bytearray(seed), 'memoryview': lambda: memoryview(seed)}.get(seed_as)
+			if 'str' == seed_as:
+				# a text seed is not a seed: the unchanged code hands it to hmac, which raises TypeError
+				text_result = attempt(lambda: modules['Bip32'](curve).from_seed(seed.decode('latin1')))
+				out.require('none' == text_result[0], f'from_seed accepted the str {seed.decode("latin1")!r} as a seed')
+				out.branches.append('seed:str')
+				return out
+			start = lambda: modules['Bip32'](curve).from_seed(given_seed())  # noqa: E731 pylint: disable=unnecessary-lambda-assignment
 			expected_start = spec_root(curve, seed)
+			if case.get('differs_from'):
+				other_root = impl_node(attempt(lambda: modules['Bip32'](curve).from_seed(bytes.fromhex(case['differs_from']))))
+				out.require(other_root != impl_node(attempt(start)), f'seeds {hx(seed)} and {case["differs_from"]} give the same root node')
 			prefix = f'{sx(curve)} {hx(seed)}'
 			names = ('derive_path', 'derive_split')
 			root_answer = impl_node(attempt(start))
@@ -803,6 +814,33 @@ def generate(ctx, vectors):
 			cases.append({
 				'op': 'account', 'facade': facade_name, 'seed': gen_seed(rng, vector_seeds).hex().upper(), 'path': [44, coin, account, 0, 0],
 				'raw': False})
+
+	# seeds that look like text (all bytes ASCII hex digits, digits, printable) - a seed is bytes, whatever they spell
+	def ascii_seed(pool, length):
+		return bytes(rng.choice(pool) for _ in range(length))
+
+	lower, upper, mixed = b'0123456789abcdef', b'0123456789ABCDEF', b'0123456789abcdefABCDEF'
+	ascii_seeds = [bytes(range(16)).hex().encode('ascii'), b'DEADBEEFdeadbeef' * 4, b'00ff', b'00', b'0', b'ff' * 32, b'0123456789' * 4]
+	for pool in (lower, upper, mixed, b'0123456789'):
+		for length in (2, 16, 31, 32, 33, 64, 128):
+			ascii_seeds.append(ascii_seed(pool, length))
+	for _ in range(6):
+		almost = bytearray(ascii_seed(mixed, rng.choice([32, 64])))
+		almost[rng.randrange(len(almost))] = rng.choice(b'gGxz -_\x00\xff')
+		ascii_seeds.append(bytes(almost))
+		ascii_seeds.append(ascii_seed(bytes(range(0x20, 0x7F)), rng.choice([16, 32, 64])))
+	for position, seed in enumerate(ascii_seeds):
+		for curve in (['ed25519', 'ed25519-keccak'] if position < 12 or ctx.thorough else [rng.choice(['ed25519', 'ed25519-keccak'])]):
+			seed_as = ['bytes', 'bytes', 'bytearray', 'memoryview'][position % 4]
+			cases.append({'op': 'derive', 'curve': curve, 'seed': seed.hex().upper(), 'path': [44, 4343, position % 3][:position % 4], 'seed_as': seed_as})
+	for curve in ('ed25519', 'ed25519-keccak'):
+		cases.append({'op': 'derive', 'curve': curve, 'seed': b'00ff'.hex().upper(), 'path': [], 'differs_from': '00FF'})
+		cases.append({'op': 'derive', 'curve': curve, 'seed': '00FF', 'path': [0], 'differs_from': b'00ff'.hex().upper()})
+		for seed in (b'00ff', b'000102030405060708090a0b0c0d0e0f', b'not hex'):
+			cases.append({'op': 'derive', 'curve': curve, 'seed': seed.hex().upper(), 'path': [], 'seed_as': 'str'})
+	for facade_name in ('symbol', 'nem'):
+		for seed in ascii_seeds[:4] + ascii_seeds[8:12]:
+			cases.append({'op': 'account', 'facade': facade_name, 'seed': seed.hex().upper(), 'path': [44, COIN_TYPES[facade_name], 0, 0, 0], 'raw': False})
 
 	# long paths (any length; iterables other than lists), both shipped curves
 	lengths = [200, 600, 1100, 1500] + ([2500, 5000] if ctx.thorough else [])
